@@ -90,6 +90,10 @@ def handle : List String → Option String
         if fragile eps (pre3 mode T csS csD rnd v0 v1 v2) then "?"
         else if csS.valid p then toString ((p.1 * csS.n1 + p.2.1) * csS.n2 + p.2.2) else "-1"
       pure (s!"{csD.n0} {csD.n1} {csD.n2} | " ++ " ".intercalate cells)) rest
+  | "taff2" :: dir :: rest => run (do
+      -- taff2 <call|inv> <mode> <rounding> tx ty σ ang n (x y)* : typed evaluation (result wrapped in the point type)
+      let mode ← pMode; let rnd ← pRounding; let T ← pAffine2; let pts ← P.list pV2; P.done
+      pure (showV2s (pts.map (if dir = "call" then typedCall2 mode rnd T else typedInverse2 mode rnd T)))) rest
   | "fitfold" :: rest => run (do
       -- fitfold <precondition> t'x t'y σ ang n (sx sy)*n (dx dy)*n
       --   -> folded translation | objective of the identity start on the (shifted) pairs | folded map applied to the sources
